@@ -1,7 +1,7 @@
 import python_minifier.ast_compat as ast
 
 from python_minifier.rename.binding import BuiltinBinding, NameBinding
-from python_minifier.rename.util import builtins, get_global_namespace, get_nonlocal_namespace
+from python_minifier.rename.util import builtins, get_global_namespace, get_nonlocal_namespace, has_private_names
 
 
 def get_binding(name, namespace):
@@ -83,6 +83,10 @@ def resolve_names(node):
     elif isinstance(node, ast.ClassDef) and node.name in node.namespace.nonlocal_names:
         binding = get_binding_disallow_class_namespace_rename(node.name, node.namespace)
         binding.add_reference(node)
+
+        if has_private_names(node):
+            # The class name is part of the mangled form of its private names
+            binding.disallow_rename()
 
     elif isinstance(node, (ast.FunctionDef, ast.AsyncFunctionDef)) and node.name in node.namespace.nonlocal_names:
         binding = get_binding_disallow_class_namespace_rename(node.name, node.namespace)
